@@ -627,7 +627,9 @@ class BPSK(Modulator):
         # noinspection PyTypeChecker
         if np.any(inputData > 1):
             raise ValueError("Input data can only contains '0's and '1's")
-        return 1 - 2 * inputData
+        # Note: the bits are converted to (signed) integers first, since with
+        # an unsigned dtype `1 - 2 * inputData` wraps around (1 -> 255 for uint8)
+        return 1 - 2 * np.asarray(inputData, dtype=int)
 
     def demodulate(self, receivedData: np.ndarray) -> np.ndarray:
         """
